@@ -227,6 +227,10 @@ func checkC03(c *Check) {
 
 	// ---- R7: no extra rejections
 	c03R7(c, R, m)
+	// the code-for-token request must reach the provider as it was built (C04.R2's transport rule)
+	transportPreservesRequest(c, "C03.R5")
+	// … over a TLS configuration that carries the trusted CA (C20.R4's pool rule)
+	poolInsertIsFinal(c, "C03.R5")
 
 	// ---- R4
 	n := 0
